@@ -7,8 +7,9 @@ import p_tracker
 import p_sched
 import p_upload
 import p_peerfsm
+import p_live
 
-HOOK_COMMITS = ["ad8b203", "23d7fe8", "8de280d", "16a7335"]
+HOOK_COMMITS = ["ad8b203", "23d7fe8", "8de280d", "16a7335", "4ddeda5"]
 
 NOT_APPLICABLE = {}
 
@@ -18,7 +19,29 @@ _PS_NOTE = ("Trusted: TLC, the Go harness (gate scheduler, content PRF, projecti
 
 _B4 = "TLC-enumerated case table (TLA+ decision function over boundary classes) executed on the real code, outcomes checked by TLC against the specification's invariants"
 
+_LIVE = "Trusted: TLC, the loop-gate stepping, mktor/content. Real goroutines, real event loop; timing only through generous watchdogs (5-10 s)."
+
 REGISTRY = {
+    "C10": {"run": p_live.run_c10, "design": "DESIGN.md section 3 C10",
+            "technique": "TLC exhaustive model checking of Requests.tla + simulated behaviours executed on a running torrent (loop gate + yield hook)",
+            "level": "Requests.tla (two-step Torrent.Request, FIFO loop, Flip before its TorHave, eviction, withdrawals) is model-checked exhaustively "
+                     "(2 pieces, 2 consumers, 4 operations) and simulated (3/3/14); behaviours are executed with real goroutines calling Torrent.Request "
+                     "against the real loop stepped event by event; at the end: no waiter on an open channel for a verified piece, no waiter woken for an "
+                     "unverified piece it still wants, the priority table equals what the consumers hold, no double close (crash).",
+            "note": _LIVE},
+    "C17": {"run": p_live.run_c17, "design": "DESIGN.md section 3 C17",
+            "technique": "TLC model checking (liveness under fairness) of Lifecycle.tla + every operation x stop point executed on a real running torrent",
+            "level": "Lifecycle.tla models the send/await selects of the four call shapes, the loop and its exit path; TLC checks that every call returns "
+                     "(weak fairness) and the loop never waits for a vanished caller, for all pairs of shapes plus a deleter; each of the 17 exported operations "
+                     "is executed at each realisable stop point on a real torrent with peers and a blocked reader: the call must return, and after Kill the torrent "
+                     "is unlisted, peer connections closed, the reader fails, piece memory and goroutines return to their baselines.",
+            "note": _LIVE},
+    "C02": {"run": p_live.run_c02, "design": "DESIGN.md section 3 C02",
+            "technique": "TLC model checking of Reader.tla + simulated seek/read/evict/cancel/kill behaviours executed on a real tor.Reader with a harness-played honest seed",
+            "level": "Reader.tla gives io.Seeker semantics, clipping and EOF; TLC checks Window/EofExactlyAtLength and simulates behaviours over 5 ranges; each is run on a "
+                     "real Reader of a running torrent: every byte equals the ground truth at offset+position, nothing beyond the range, EOF exactly at length, a blocked "
+                     "read returns once the seed has supplied what was requested (even after evictions, no (0,nil) spin), and fails once cancelled or deleted.",
+            "note": _LIVE},
     "C05": {"run": p_peerfsm.run, "design": "DESIGN.md section 3 C05",
             "technique": "TLC model checking of PeerFsm.tla + every (state class x message class) edge and random message sequences executed on peer.handleMessage and tor.handleEvent with crash/hang/allocation monitors",
             "level": "PeerFsm.tla predicts accept/disconnect for ~170 message classes (boundary indexes 0, last, n, 2^30, 2^32-1; offsets; lengths; payload sizes; "
